@@ -126,8 +126,19 @@ def clone_val(v):
 
 def map_find(run,m,key):
     """index of entry with key == key (forks on symbolic equality) or None"""
+    eng=getattr(run,'eng',None); kd=deref(key)
+    custom=None
+    if eng is not None and isinstance(kd,Agg) and getattr(eng,'custom_cmp',None):
+        # a key type with hand-written equality (HashMap) / ordering (BTreeMap): the collection sees keys through it
+        if not m.ordered and ('PartialEq',kd.ty) in eng.custom_cmp: custom='eq'
+        if m.ordered and ('Ord',kd.ty) in eng.custom_cmp: custom='cmp'
     for i,ent in enumerate(m.e):
-        if run.branch_bool(val_eq(ent[0],key),'mapkey'): return i
+        if custom=='eq': same=eng.eq(run,ent[0],key)
+        elif custom=='cmp':
+            r=deref(eng.call_fn(run,eng.custom_cmp[('Ord',kd.ty)],[ent[0] if isinstance(ent[0],Ref) else Ref(Cell(ent[0])),key if isinstance(key,Ref) else Ref(Cell(key))]))
+            same=Bool(r.vname=='Equal')
+        else: same=val_eq(ent[0],key)
+        if run.branch_bool(same,'mapkey'): return i
     return None
 
 def map_insert(run,m,k,v):
@@ -2293,3 +2304,68 @@ def register_misc17(E):
 _old_register_all26=register_all
 def register_all(E):
     _old_register_all26(E); register_misc17(E)
+
+# ---- str::eq_ignore_ascii_case / to_ascii_lowercase / to_ascii_uppercase
+def _ascii_lower_term(x):
+    if isinstance(x,int): return x+32 if 0x41<=x<=0x5a else x
+    return z3.If(z3.And(z3.UGE(x,0x41),z3.ULE(x,0x5a)),x+32,x)
+def m_eq_ignore_ascii_case(e,run,a,f):
+    x=byte_list(a[0]); y=byte_list(a[1])
+    if len(x)!=len(y): return Bool(False)
+    return bytes_eq([_ascii_lower_term(b) for b in x],[_ascii_lower_term(b) for b in y])
+def m_to_ascii_case(lower):
+    def m(e,run,a,f):
+        bl=byte_list(a[0]); out=[]
+        for x in bl:
+            if lower: out.append(_ascii_lower_term(x) if not isinstance(x,int) else _ascii_lower_term(x))
+            else:
+                if isinstance(x,int): out.append(x-32 if 0x61<=x<=0x7a else x)
+                else: out.append(z3.If(z3.And(z3.UGE(x,0x61),z3.ULE(x,0x7a)),x-32,x))
+        return StringO([z3.simplify(t) if not isinstance(t,int) else t for t in out])
+    return m
+def register_misc18(E):
+    M=E.model
+    M(r'<impl (str|\[u8\])>::eq_ignore_ascii_case$',m_eq_ignore_ascii_case)
+    M(r'<impl str>::to_ascii_lowercase$|^String::to_ascii_lowercase$',m_to_ascii_case(True)); M(r'<impl str>::to_ascii_uppercase$|^String::to_ascii_uppercase$',m_to_ascii_case(False))
+_old_register_all27=register_all
+def register_all(E):
+    _old_register_all27(E); register_misc18(E)
+
+# ---- chrono: DateTime::signed_duration_since -> TimeDelta; TimeDelta::{num_nanoseconds,num_seconds}
+# A TimeDelta is kept as (whole seconds S: 72-bit signed, nanoseconds N in [0,1e9): 40-bit) - no multiplication by 10^9
+# anywhere (a 128-bit product makes z3 give up); num_nanoseconds returns a value whose *sign and zero-ness* are exact and
+# whose magnitude is otherwise unconstrained (noted in the model list; a use of the magnitude would surface in the native replay).
+def _sx(v,w,to):
+    if isinstance(v,int): return z3.BitVecVal(v,to)
+    return z3.SignExt(to-w,v)
+def m_signed_duration_since(e,run,a,f):
+    x=deref(a[0]); y=deref(a[1])
+    xs=_sx(x.f[0].signed_val() if x.f[0].conc() else x.f[0].v,64,72); ys=_sx(y.f[0].signed_val() if y.f[0].conc() else y.f[0].v,64,72)
+    xn=z3.BitVecVal(x.f[1].v,40) if x.f[1].conc() else z3.ZeroExt(8,x.f[1].v); yn=z3.BitVecVal(y.f[1].v,40) if y.f[1].conc() else z3.ZeroExt(8,y.f[1].v)
+    S=xs-ys; N=xn-yn
+    neg=N<0
+    S=z3.If(neg,S-1,S); N=z3.If(neg,N+1000000000,N)
+    return Agg('TimeDelta',[Int(72,True,z3.simplify(S)),Int(40,True,z3.simplify(N))])
+def _delta_parts(d):
+    d=deref(d); S=d.f[0].v if not isinstance(d.f[0].v,int) else z3.BitVecVal(d.f[0].v,72); N=d.f[1].v if not isinstance(d.f[1].v,int) else z3.BitVecVal(d.f[1].v,40)
+    adj=z3.And(S<0,N>0)
+    return z3.If(adj,S+1,S), z3.If(adj,N-1000000000,N)       # chrono's num_seconds() / subsec_nanos(): rounded toward zero
+def m_delta_num_nanoseconds(e,run,a,f):
+    ns,sub=_delta_parts(a[0]); L=9223372036
+    fits=z3.And(ns>=-L,ns<=L,z3.Not(z3.And(ns==L,sub>854775807)),z3.Not(z3.And(ns==-L,sub<-854775808)))
+    if not run.branch_bool(Bool(z3.simplify(fits)),'delta.fits_i64'): return none()
+    k=run.fresh_n['delta']; run.fresh_n['delta']+=1
+    v=z3.BitVec('delta_nanos_%d'%k,64)
+    isneg=z3.Or(ns<0,z3.And(ns==0,sub<0)); iszero=z3.And(ns==0,sub==0)
+    run.add((v<0)==isneg,(v==0)==iszero)
+    return some(Int(64,True,v))
+def m_delta_num_seconds(e,run,a,f):
+    ns,_=_delta_parts(a[0])
+    return Int(64,True,z3.simplify(z3.Extract(63,0,ns)))
+def register_misc19(E):
+    M=E.model
+    M(r'^DateTime::signed_duration_since$|^<DateTime<.*> as Sub<.*DateTime<.*>>>::sub$',m_signed_duration_since)
+    M(r'^(TimeDelta|Duration)::num_nanoseconds$',m_delta_num_nanoseconds); M(r'^(TimeDelta|Duration)::num_seconds$',m_delta_num_seconds)
+_old_register_all28=register_all
+def register_all(E):
+    _old_register_all28(E); register_misc19(E)
